@@ -7,8 +7,8 @@ Import ListNotations.
 Open Scope Z_scope.
 
 Inductive case :=
-(* mintBatchSize on the consecutive batches from, from+1, ... *)
-| CBatches (from : Z) (obs : list (res Z))
+(* mintBatchSize on the consecutive batches from, from+1, ...; run-length encoded *)
+| CBatches (from : Z) (obs : list (res Z * Z))
 | CMulti (old batch : Z) (obs : res Z)
 | CPool (batch : Z) (obs : res Z)
 | CThreshold (n : Z) (obs : Z)
@@ -18,7 +18,7 @@ Inductive case :=
         (works : list (Z * Z)) (thr base : Z) (obs : res (list Z))
 (* buildUniversalMintTransaction: output amounts (Err = nil transaction) *)
 | CBuild (old old_amount batch : Z) (validate_only day0 : bool)
-         (now : list (Z * Z)) (spaces : list (option Z))
+         (now : list (Z * Z)) (spaces : list (option Z)) (rbatch : Z)
          (works : list (Z * Z)) (thr : Z) (obs : res (list Z)).
 
 Fixpoint zlist_eqb (a b : list Z) : bool :=
@@ -28,15 +28,32 @@ Fixpoint zlist_eqb (a b : list Z) : bool :=
   | _, _ => false
   end.
 
-Fixpoint batches_ok (from : Z) (obs : list (res Z)) : bool :=
+(* [mint_batch_size] on consecutive batches, observations run-length encoded:
+   (o, k) = the next k batches all returned o.  The value of the previous batch
+   is reused while batch / year_days does not change (mint_batch_size b is by
+   definition batch_size_of_year (b / year_days)). *)
+Fixpoint batches_run (k : nat) (from : Z) (cache : Z * res Z) (o : res Z) : option (Z * res Z) :=
+  match k with
+  | O => Some cache
+  | S k' =>
+      let y := from / year_days in
+      let v := if y =? fst cache then snd cache else batch_size_of_year y in
+      if res_eqb Z.eqb v o then batches_run k' (from + 1) (y, v) o else None
+  end.
+
+Fixpoint batches_ok (from : Z) (cache : Z * res Z) (obs : list (res Z * Z)) : bool :=
   match obs with
   | [] => true
-  | o :: r => res_eqb Z.eqb (mint_batch_size from) o && batches_ok (from + 1) r
+  | (o, k) :: r =>
+      match batches_run (Z.to_nat k) from cache o with
+      | Some c => batches_ok (from + k) c r
+      | None => false
+      end
   end.
 
 Definition check (c : case) : bool :=
   match c with
-  | CBatches from obs => batches_ok from obs
+  | CBatches from obs => batches_ok from (-1, Panic) obs
   | CMulti old batch obs => res_eqb Z.eqb (mint_multi old batch) obs
   | CPool batch obs => res_eqb Z.eqb (pool_size batch) obs
   | CThreshold n obs => consensus_threshold n =? obs
@@ -44,7 +61,7 @@ Definition check (c : case) : bool :=
       res_eqb zlist_eqb
         (if negb day0 && negb (ready now spaces thr batch) then Err
          else distribute day0 works thr base) obs
-  | CBuild old oa batch vo day0 now spaces works thr obs =>
+  | CBuild old oa batch vo day0 now spaces rbatch works thr obs =>
       res_eqb zlist_eqb
-        (build_mint old oa batch vo day0 (ready now spaces thr batch) works thr) obs
+        (build_mint old oa batch vo day0 (ready now spaces thr rbatch) works thr) obs
   end.
